@@ -25,10 +25,14 @@ FOLLOW = {
 }
 
 
+EMPTY_ENVELOPES = ["3000", "308100", "30820000", "3084000000" + "00", "6000", "0400", "30028100", "3003020100", "30050201008100"]
+
+
 def interior_mutants(b: bytes) -> t.Iterator[t.Tuple[str, int, bytes]]:
+    """Every node mutation whose result is still exactly one complete top-level unit under the
+    independent framer -- interior damage, but also damage to the envelope itself as long as its
+    (possibly changed, possibly zero) outer length stays satisfied."""
     for label, idx, data in bermut.mutants(b):
-        if idx == 0:
-            continue  # the envelope itself: not a complete unit any more (C05's business)
         units, used = ber.frame(data)
         if len(units) == 1 and used == len(data):
             yield label, idx, data
@@ -68,7 +72,36 @@ def modes(data: bytes, all_splits: bool) -> t.Iterator[t.Tuple[str, t.List[bytes
 _X: t.Dict[str, t.Any] = {}
 
 
+def _wellformed(bi: int) -> evid.Local:
+    """Well-formed streams (A, B, A): every partition into at most 3 (short streams: 4) chunks is accounted for."""
+    import itertools
+
+    loc = evid.Local()
+    b = _X["bases"][bi]
+    role = _X["roles"][bi]
+    f = FOLLOW[role].pack(K.OPTS)
+    data = b + f + b if len(b) <= 40 else b + f
+    n = len(data)
+    parts = [[data], [data[j : j + 1] for j in range(n)]]
+    for ncut in (1, 2, 3):
+        if ncut == 3 and n > 44:
+            continue
+        for cuts in itertools.combinations(range(1, n), ncut):
+            cs = (0,) + cuts + (n,)
+            parts.append([data[a:b2] for a, b2 in zip(cs, cs[1:])])
+    for chunks in parts:
+        loc.add("transitions", len(chunks))
+        v, outcome = deliver(role, data, chunks)
+        if v:
+            loc.violation(f"{v[0]}:{role}:well-formed-stream", v[1] + f" [chunk sizes {[len(c) for c in chunks][:8]}]", {"role": role, "data": data.hex(), "chunks": "bytewise" if len(chunks) == n else [c.hex() for c in chunks]})
+    loc.add("states")
+    loc.distinct.add(("well-formed", bi))
+    return loc
+
+
 def _work(job: t.Tuple[int, str]) -> evid.Local:
+    if job[1] == "well-formed":
+        return _wellformed(job[0])
     loc = evid.Local()
     bi, shape = job
     b = _X["bases"][bi]
@@ -101,14 +134,18 @@ def run(ctx: evid.Ctx) -> None:
     _X["roles"] = ["server" if isinstance(m, (L.BindRequest, L.SearchRequest, L.ExtendedRequest)) else "client" for m in keep]
     _X["all_splits"] = thorough
     jobs = [(i, sh) for i in range(len(keep)) for sh in (("mut+valid", "valid+mut+valid", "mut") if thorough else ("mut+valid",))]
-    # sanity: the unmutated streams are accounted for exactly
-    for i, b in enumerate(_X["bases"]):
-        role = _X["roles"][i]
-        data = b + FOLLOW[role].pack(K.OPTS)
-        for mname, chunks in modes(data, False):
-            v, outcome = deliver(role, data, chunks)
-            if v:
-                ctx.violation(f"{v[0]}:{role}:unmutated", v[1], {"role": role, "data": data.hex(), "chunks": "bytewise" if mname == "bytewise" else [c.hex() for c in chunks]})
+    jobs += [(i, "well-formed") for i in range(len(keep))]
+    # complete units with no content at all, in every length form, alone and followed by a valid PDU
+    for hx in EMPTY_ENVELOPES:
+        for role in ("server", "client"):
+            for tail in (b"", FOLLOW[role].pack(K.OPTS)):
+                data = bytes.fromhex(hx) + tail
+                for mname, chunks in modes(data, True):
+                    ctx.add("transitions", len(chunks))
+                    v, outcome = deliver(role, data, chunks)
+                    if v:
+                        ctx.violation(f"{v[0]}:{role}:empty-unit", v[1] + f" [{hx}; {mname}]", {"role": role, "data": data.hex(), "chunks": "bytewise" if mname == "bytewise" else [c.hex() for c in chunks]})
+                ctx.add("states")
     for loc in par.pmap(_work, jobs, ctx.seed):
         evid.absorb(ctx, loc)
     ctx.counters["evaluations"] = ctx.counters.get("transitions", 0)
